@@ -106,6 +106,10 @@ def gen_program(rng, profile="general", payload=None, cap="rand"):
         return gen_chain(rng, payload, cap, side="s")
     if profile == "progress":
         return gen_progress(rng)
+    if profile == "waiters":
+        return gen_waiters(rng)
+    if profile == "trystate":
+        return gen_trystate(rng)
     if profile == "mutex":
         return gen_mutex(rng)
     if profile == "mutexfreeze":
@@ -516,6 +520,139 @@ def gen_progress(rng):
     st = {"spin_bias": rng.choice([0.9, 0.995, 0.999]), "p_switch": rng.choice([0.02, 0.1, 0.5]),
           "p_spurious": rng.choice([0.0, 0.2, 0.4]), "q_tick": 0.0, "tick_phase": 3}
     return {"cap": cap, "payload": rng.choice(["w1", "b3", "h4", "u8", "u16", "p5"]), "procs": procs, "strat": st}
+
+
+def _waiter_ops(rng, side, kind, m, f=0):
+    if side == "s":
+        if kind == "sync":
+            return [{"op": "send", "h": 0, "m": m}]
+        if kind == "timed":
+            return [{"op": rng.choice(["send_timeout", "send_option_timeout"]), "h": 0, "m": m, "d": 400}]
+        if kind == "async":
+            return [{"op": "asend_new", "h": 0, "f": f, "m": m}, {"op": "await", "f": f, "w": 1}]
+        return [{"op": "asend_new", "h": 0, "f": f, "m": m}, {"op": "poll", "f": f, "w": 1}, {"op": "poll", "f": f, "w": 2}, {"op": "await", "f": f, "w": 3}]
+    if kind == "sync":
+        return [{"op": rng.choice(["recv", "iter_next"]), "h": 0}]
+    if kind == "timed":
+        return [{"op": "recv_timeout", "h": 0, "d": 400}]
+    if kind == "async":
+        return [{"op": "arecv_new", "h": 0, "f": f}, {"op": "await", "f": f, "w": 1}]
+    if kind == "async2":
+        return [{"op": "arecv_new", "h": 0, "f": f}, {"op": "poll", "f": f, "w": 1}, {"op": "poll", "f": f, "w": 2}, {"op": "await", "f": f, "w": 3}]
+    return [{"op": "stream_new", "h": 0, "f": f}, {"op": "await", "f": f, "w": 1}]
+
+
+def gen_waiters(rng):
+    """C06 (and the waiting list in general): the channel first carries `warm` hand-offs, so that the waiting
+    list's ring buffer has moved on from its initial position, then 2..5 waiters of one side register one after
+    the other (each driven into its park / pending state), and one phase later a single event must release all
+    of them: close from either side, the drop of the last handle of the other side, or enough peers."""
+    cap = rng.choice([0, 0, 0, 1, 2])
+    side = rng.choice("sr")
+    other = "r" if side == "s" else "s"
+    warm = rng.choice([0, 2, 3, 4, 5, 6, 7, 7, 8, 9, 11])
+    nw = rng.choice([2, 3, 3, 4, 4, 5])
+    release = rng.choice(["close", "close", "close_other", "last_drop", "last_drop", "peer"])
+    procs = []
+    mid = 100
+    # warm-up traffic (phase 0): every hand-off on a rendezvous channel goes through the waiting list once.
+    # Process 0 (waiting side) becomes the first waiter afterwards, process 1 (other side) the releaser.
+    wside_h = rng.choice(["s", "a"]) + side
+    other_h = rng.choice(["s", "a"]) + other
+    wa, wb = [], []
+    for i in range(warm):
+        r = {"op": rng.choice(["recv", "recv", "recv_timeout"]), "h": 0, "d": 400}
+        w = {"op": rng.choice(["send", "send", "send_timeout"]), "h": 0, "m": mid + i, "d": 400}
+        (wa if side == "r" else wb).append(r)
+        (wb if side == "r" else wa).append(w)
+    # on a buffered channel the waiting senders need a full buffer
+    fill = [{"op": "barrier", "ph": 1}] + [{"op": "try_send", "h": 0, "m": 150 + i} for i in range(cap)] if side == "s" else []
+    kinds = ["sync", "sync", "timed", "async", "async2"] + (["stream"] if side == "r" else [])
+    for i in range(nw):
+        ops = [{"op": "barrier", "ph": 2 + i}] + _waiter_ops(rng, side, rng.choice(kinds), i + 1)
+        if i == 0:
+            procs.append({"phase": 0, "handles": [wside_h], "ops": wa + fill + ops})
+        else:
+            procs.append({"phase": 0, "handles": [wside_h], "ops": ops})
+    rel_ph = 2 + nw
+    b = [{"op": "barrier", "ph": rel_ph}]
+    if release == "close":
+        rel = b + [{"op": "close", "h": 0}]
+    elif release == "close_other":
+        rel = b + [{"op": "close", "h": 1}]
+    elif release == "last_drop":
+        rel = b + [{"op": "drop", "h": 2}, {"op": "len", "h": 0}, {"op": "drop", "h": 0}]
+    else:
+        rel = list(b)
+        n = nw + (cap if side == "s" else 0)
+        for i in range(n):
+            if other == "s":
+                rel.append({"op": rng.choice(["send", "try_send", "try_send_realtime", "send_timeout"]), "h": 0, "m": 50 + i, "d": 400})
+            else:
+                rel.append({"op": rng.choice(["recv", "try_recv", "try_recv_realtime", "recv_timeout"]), "h": 0, "d": 400})
+    hs = [other_h, wside_h, other_h]
+    procs.insert(1, {"phase": 0, "handles": hs, "ops": wb + rel})
+    st = {"spin_bias": rng.choice([0.9, 0.995, 0.999]), "p_switch": rng.choice([0.02, 0.1, 0.5]),
+          "p_spurious": rng.choice([0.0, 0.0, 0.2]), "q_tick": 0.0, "tick_phase": rel_ph + 2}
+    return {"cap": cap, "payload": rng.choice(["w1", "b3", "h4", "u8", "u16", "p5"]), "procs": procs, "strat": st}
+
+
+TRY_SEND = ["try_send", "try_send_option", "try_send_realtime", "try_send_option_realtime"]
+TRY_RECV = ["try_recv", "try_recv_realtime", "drain_into"]
+
+
+def gen_trystate(rng):
+    """C14: the channel is first put into one of its qualitatively different states (empty, partly filled, full,
+    a parked receiver, a parked sender, closed with or without buffered messages, all receivers gone, all senders
+    gone), then a process issues every non-blocking operation once, in random order, alone."""
+    cap = rng.choice([0, 1, 2, 2, None])
+    state = rng.choice(["empty", "part", "full", "rwait", "swait", "closed", "closed_buf", "norecv", "norecv_buf", "nosend", "nosend_buf"])
+    flav_s = rng.choice(["ss", "as"])
+    flav_r = rng.choice(["sr", "ar"])
+    nbuf = 0 if not cap and cap is not None else (rng.choice([1, 2]) if cap is None else cap)
+    procs = []
+    setup = []           # by the process that keeps both handles (phase 0)
+    if state in ("part", "closed_buf", "norecv_buf", "nosend_buf") and nbuf:
+        k = 1 if state == "part" else rng.randrange(1, nbuf + 1)
+        setup += [{"op": "try_send", "h": 0, "m": 100 + i} for i in range(k)]
+    if state == "full" and nbuf:
+        setup += [{"op": "try_send", "h": 0, "m": 100 + i} for i in range(nbuf)]
+    if state == "swait":
+        setup += [{"op": "try_send", "h": 0, "m": 100 + i} for i in range(cap or 0)]
+    if state in ("closed", "closed_buf"):
+        setup.append({"op": "close", "h": rng.choice([0, 1])})
+    # the acting process holds handles [s, r] (and spare ones to drop)
+    hs = [flav_s, flav_r]
+    if state in ("norecv", "norecv_buf"):
+        setup.append({"op": "drop", "h": 1})
+    if state in ("nosend", "nosend_buf"):
+        setup.append({"op": "drop", "h": 0})
+    ops = []
+    tries = []
+    if state not in ("nosend", "nosend_buf"):
+        tries += [{"op": o, "h": 0, "m": 10 + i, **({"none": 1} if "option" in o and rng.random() < 0.15 else {})} for i, o in enumerate(TRY_SEND)]
+    if state not in ("norecv", "norecv_buf"):
+        for o in TRY_RECV:
+            if o == "drain_into":
+                tries.append({"op": o, "h": 1, "pre": rng.choice([0, 1]), "spare": rng.choice([0, 2, 8])})
+            else:
+                tries.append({"op": o, "h": 1})
+    tries += [{"op": "len", "h": 0 if state not in ("nosend", "nosend_buf") else 1}]
+    rng.shuffle(tries)
+    if rng.random() < 0.5:
+        tries = tries + json.loads(json.dumps(tries[:3]))
+        for i, o in enumerate(tries[-3:]):
+            if "m" in o:
+                o["m"] = 30 + i
+    procs.append({"phase": 0, "handles": hs, "ops": setup + [{"op": "barrier", "ph": 2}] + tries})
+    if state == "rwait":
+        w = _waiter_ops(rng, "r", rng.choice(["sync", "timed", "async", "async2"]), 0)
+        procs.append({"phase": 0, "handles": [flav_r], "ops": [{"op": "barrier", "ph": 1}] + w})
+    if state == "swait":
+        w = _waiter_ops(rng, "s", rng.choice(["sync", "timed", "async", "async2"]), 1)
+        procs.append({"phase": 0, "handles": [flav_s], "ops": [{"op": "barrier", "ph": 1}] + w})
+    st = {"spin_bias": 0.995, "p_switch": 0.1, "q_tick": 0.0, "tick_phase": 9}
+    return {"cap": cap, "payload": rng.choice(["w1", "b3", "h4", "u8", "p5", "z0"]), "procs": procs, "strat": st}
 
 
 def gen_mutex(rng, freeze=False):
